@@ -10,7 +10,7 @@ from pwv.core import Result, lib
 ID = 'C19'
 MODES = ['zero', 'symmetric', 'reflect', 'periodization']
 RULE = ('Hypothesis draws direction (analysis/synthesis), filters as a 2-tuple of one wavelet or a 4-tuple '
-        '(column wavelet, row wavelet) of two different wavelets, mode in zero/symmetric/reflect/'
+        '(column wavelet, row wavelet) of two different wavelets, or (one case in six) a hand-made bank with integer-typed lowpass taps given as integer ndarrays / lists, mode in zero/symmetric/reflect/'
         'periodization, independent H,W >= 2 (odd, shorter than the filter, non-square), N, C, dtype, '
         'content recipes. Oracle: differential afb2d_nonsep vs afb2d and sfb2d_nonsep vs sfb2d on the same '
         'arguments (basis inputs for the full operator when small, dense inputs always); exactly one of the '
@@ -44,7 +44,25 @@ def _case(draw, unit):
     Lc, Lr = dwtu.flen(wc), dwtu.flen(wr)
     H = draw(dwtu.size_strategy(Lc, 1, cap=24))
     W = draw(dwtu.size_strategy(Lr, 1, cap=24))
-    return {'direction': unit.get('direction') or draw(st.sampled_from(['analysis', 'synthesis'])),
+    custom = None
+    if not unit.get('wave') and draw(st.integers(0, 5)) == 0:
+        # a hand-made filter bank (the functions take any arrays): integer-typed taps (e.g. the unnormalised Haar /
+        # binomial lowpass) next to fractional ones, as integer ndarrays or plain lists
+        def bank(L):
+            lo = [draw(st.integers(-3, 3)) for _ in range(L)]
+            if not any(lo):
+                lo[0] = 1
+            hi = [draw(st.sampled_from([0.5, -0.5, 0.125, 0.375, -0.375, 1.0, -1.0, 0.0, 2.0 ** -0.5, -0.3])) for _ in range(L)]
+            return lo, hi
+        Lc = draw(st.sampled_from([2, 2, 4, 4, 6, 8]))
+        Lr = Lc if not four else draw(st.sampled_from([2, 4, 6]))
+        bc = bank(Lc)
+        br = bank(Lr) if four else bc
+        custom = {'lo_c': bc[0], 'hi_c': bc[1], 'lo_r': br[0], 'hi_r': br[1],
+                  'container': draw(st.sampled_from(['int_array', 'int_array', 'list', 'float_array']))}
+        H = draw(dwtu.size_strategy(Lc, 1, cap=24))
+        W = draw(dwtu.size_strategy(Lr, 1, cap=24))
+    return {'direction': unit.get('direction') or draw(st.sampled_from(['analysis', 'synthesis'])), 'custom': custom,
             'wcol': wc, 'wrow': wr, 'four': four or draw(st.booleans()), 'mode': mode,
             'size': [H, W], 'N': draw(st.sampled_from([1, 2, 3])), 'C': draw(st.sampled_from([1, 2, 3])),
             'dtype': draw(st.sampled_from(['f64', 'f64', 'f64', 'f32'])),
@@ -65,6 +83,10 @@ def run_case(case):
     f32 = case['dtype'] == 'f32'
     tdt = dwtu.tdt(case['dtype'])
     Lc, Lr = wc.dec_len, wr.dec_len
+    cu = case.get('custom')
+    if cu:
+        Lc, Lr = len(cu['lo_c']), len(cu['lo_r'])
+        r.label('custom_filter_bank', 'filters_as_' + cu['container'])
     r.label(case['direction'], mode, case['dtype'], '4tuple' if case['four'] else '2tuple',
             'odd' if (H % 2 or W % 2) else None, 'nonsquare' if H != W else None,
             'different_wavelets' if case['wcol'] != case['wrow'] else None,
@@ -75,6 +97,15 @@ def run_case(case):
     else:
         f4 = (np.array(wc.rec_lo), np.array(wc.rec_hi), np.array(wr.rec_lo), np.array(wr.rec_hi))
     filts = f4 if (case['four'] or case['wcol'] != case['wrow']) else f4[:2]
+    if cu:
+        def box(lo, hi):
+            if cu['container'] == 'list':
+                return [list(lo), list(hi)]
+            if cu['container'] == 'int_array':
+                return [np.array(lo, dtype=np.int64), np.array(hi, dtype=np.float64)]
+            return [np.array(lo, dtype=np.float64), np.array(hi, dtype=np.float64)]
+        different = (cu['lo_c'], cu['hi_c']) != (cu['lo_r'], cu['hi_r'])
+        filts = tuple(box(cu['lo_c'], cu['hi_c']) + (box(cu['lo_r'], cu['hi_r']) if (case['four'] or different) else []))
 
     def both(x):
         with dwtu.default_dtype(tdt):
